@@ -8,9 +8,9 @@ from suites import run_suite
 LEAN_MODULES = ['GoSnaps.Props.C11']
 
 DIRS = ['-', 'snaps', 'a/b/__snapshots__', '../shared', './x/../y', '/abs/dir', '/abs/./d/../e/']
-FILES = ['-', 'custom', 'my_test']
+FILES = ['-', 'custom', 'my_test', 'api.v1', 'with.two.dots']
 EXTS = ['-', '.txt', '.json']
-NAMES = ['TestA', 'TestA/sub_case', 'TestA/x/y', 'TestB#01']
+NAMES = ['TestA', 'TestA/sub_case', 'TestA/x/y', 'TestB#01', 'TestR/ratio/1.25', 'TestV1.2']
 
 
 def formula(caller, d, fn, ext, name, standalone):
@@ -67,7 +67,7 @@ def gen_program(r, idx):
     """a small module; returns (files, expected locations relative to module root, description)"""
     pkgdir = r.choice(['', 'sub', 'sub/pkg/deep'])
     pkgname = 'prog' if not pkgdir else pkgdir.split('/')[-1]
-    shape = r.choice(['direct', 'helper-nontest', 'closure', 'goroutine', 'subtest', 'deep-helpers', 'standalone', 'config', 'suite-nontest'])
+    shape = r.choice(['direct', 'helper-nontest', 'closure', 'goroutine', 'subtest', 'deep-helpers', 'standalone', 'config', 'suite-nontest', 'deep-recursion', 'dotted-names'])
     tf = 'x%d_test.go' % idx
     files = {'go.mod': GOMOD}
     imports = ['"testing"', '"github.com/gkampitakis/go-snaps/snaps"']
@@ -90,6 +90,15 @@ def gen_program(r, idx):
         files[posixpath.join(pkgdir, 'suite.go')] = 'package %s\n\nimport (\n\t"testing"\n\t"github.com/gkampitakis/go-snaps/snaps"\n)\n\nfunc SuiteBody(t *testing.T) {\n\tsnaps.MatchSnapshot(t, "v")\n}\n' % pkgname
         body = 'func TestShape(t *testing.T) {\n\tt.Run("sub", SuiteBody)\n}\n'
         exp.append(posixpath.join(base, 'suite.snap'))
+    elif shape == 'deep-recursion':
+        # 45 helper frames of a non-test file between the test and the call
+        files[posixpath.join(pkgdir, 'walk.go')] = 'package %s\n\nimport (\n\t"testing"\n\t"github.com/gkampitakis/go-snaps/snaps"\n)\n\n//go:noinline\nfunc walk(t *testing.T, depth int) {\n\tif depth == 0 {\n\t\tsnaps.MatchSnapshot(t, "leaf")\n\t\treturn\n\t}\n\twalk(t, depth-1)\n}\n' % pkgname
+        body = 'func TestShape(t *testing.T) {\n\twalk(t, 45)\n}\n'
+        exp.append(posixpath.join(base, stem + '.snap'))
+    elif shape == 'dotted-names':
+        body = 'func TestShape(t *testing.T) {\n\tt.Run("ratio/1.25", func(t *testing.T) { snaps.MatchStandaloneSnapshot(t, "a") })\n\tt.Run("ratio/1.5", func(t *testing.T) { snaps.MatchStandaloneSnapshot(t, "b") })\n\tsnaps.WithConfig(snaps.Filename("api.v1")).MatchSnapshot(t, "v1")\n\tsnaps.WithConfig(snaps.Filename("api.v2")).MatchSnapshot(t, "v2")\n}\n'
+        exp += [posixpath.join(base, 'TestShape_ratio_1.25_1.snap'), posixpath.join(base, 'TestShape_ratio_1.5_1.snap'),
+                posixpath.join(base, 'api.v1.snap'), posixpath.join(base, 'api.v2.snap')]
     elif shape == 'closure':
         body = 'func TestShape(t *testing.T) {\n\tf := func() { func() { snaps.MatchSnapshot(t, "v") }() }\n\tf()\n}\n'
         exp.append(posixpath.join(base, stem + '.snap'))
